@@ -1,10 +1,142 @@
-"""Witness search: decorates a violation with a failing input found by running the real code.
-It never decides anything."""
+"""Witness search: DECORATES a violation with a failing input found by running the real code (replay runner).
+It never decides anything: a violation is reported whether or not an input is found."""
+import glob
+import itertools
+import os
+import random
+import time
+import concurrent.futures as cf
+
+from . import replayrun
+from .engine import REPO
+
+DELTA_UNITS = {'U-LEXD', 'U-PARSE', 'U-HDR', 'U-DIG'}
+BUDGET_S = {'quick': 25, 'thorough': 240}
+
+SEEDS_DELTA = [
+    b'fn main() { a = b; }',
+    b'struct S { a: i32 }',
+    b'fn main() { var x = 340282366920938463463374607431768211456; }',
+    b'fn main() { var x = 340282366920938463463374607431768211455u128; }',
+    b'pub const M: u128 = 0xFFFFFFFFFFFFFFFFFFFFFFFFFFFFFFFF;',
+    b'pub pub pub pub pub',
+    b'f pub pub pub',
+    b'extern extern pub pub extern',
+    b'fn f() -> i32 { return: 1 }',
+    b'fn f() { if a == 1 goto x; x: }',
+    b'pub fn f(a: i32, b: []u8) -> &u8 { var x = [1, 2, 3]; x[0] = f(1, "a" "b"); }',
+    b'pub extern fn sq(x: i32) -> i32 { return: x * x }\nfn g() {}\npub const C: i32 = 1;',
+    b'fn a() {}\npub fn b() { var x = 1; }\nfn c() {}\npub struct P { x: i32, }\npub const K: i32 = 0b1;',
+    b'pub fn a() { loop; }\npub fn b() { { x = 1; } }\npub fn c() {}',
+    b'word64 W { a: u32, b: u32, }',
+    b"fn f() { var c = '\\xff'; var s = \"\\u{1F600}\\n\"; }",
+    b'fn f() { x = cast y as u8 as i32; z = |:[]u8| + |a|; }',
+    b'0b' + b'1' * 129,
+    b'0x' + b'f' * 33,
+    b'\xff\xfe\x00',
+    b'fn main() { var x = ' + b'(' * 40 + b'1' + b')' * 40 + b'; }',
+]
+TOKEN_ALPHABET = [b'pub', b'extern', b'fn', b'f', b'(', b')', b'{', b'}', b';', b':', b',', b'=', b'x', b'1', b'struct', b'const',
+                  b'if', b'else', b'goto', b'loop', b'var', b'&', b'[', b']', b'"s"', b'->', b'i32', b'return', b'==', b'+', b'|', b'.', b'as', b'cast']
 
 
-def search(pid, unit, failure):
+def _corpus():
+    out = []
+    for f in sorted(glob.glob(os.path.join(REPO, 'tests', 'samples', '**', '*.pn'), recursive=True))[:400]:
+        try:
+            out.append(open(f, 'rb').read())
+        except OSError:
+            pass
+    for f in sorted(glob.glob(os.path.join(REPO, 'examples', '**', '*.pn'), recursive=True))[:60] + \
+            sorted(glob.glob(os.path.join(REPO, 'vendor', '**', '*.pn'), recursive=True))[:20] + \
+            sorted(glob.glob(os.path.join(REPO, 'core', '**', '*.pn'), recursive=True))[:20]:
+        try:
+            out.append(open(f, 'rb').read())
+        except OSError:
+            pass
+    return out
+
+
+def _token_soup(max_len, rng, limit):
+    n = 0
+    for k in range(1, max_len + 1):
+        if len(TOKEN_ALPHABET) ** k <= limit // 2:
+            for combo in itertools.product(TOKEN_ALPHABET, repeat=k):
+                yield b' '.join(combo)
+                n += 1
+        else:
+            for _ in range(limit // max_len):
+                yield b' '.join(rng.choice(TOKEN_ALPHABET) for _ in range(k))
+                n += 1
+
+
+def _run_many(mode, inputs, deadline, bad):
+    """returns first (input, result) for which bad(result) holds"""
+    def one(data):
+        if time.time() > deadline:
+            return None
+        r = replayrun.run(mode, data, timeout=20)
+        return (data, r) if bad(r) else None
+    with cf.ThreadPoolExecutor(12) as ex:
+        futs = []
+        for data in inputs:
+            if time.time() > deadline:
+                break
+            futs.append(ex.submit(one, data))
+            if len(futs) >= 48:
+                for f in futs:
+                    x = f.result()
+                    if x:
+                        return x
+                futs = []
+        for f in futs:
+            x = f.result()
+            if x:
+                return x
+    return None
+
+
+def _crashes(r):
+    return r.get('status') in ('panic', 'crash', 'timeout')
+
+
+def search(pid, unit, failure, tier='quick', seed=0):
+    exe, err = replayrun.build()
+    if exe is None:
+        return None
+    deadline = time.time() + BUDGET_S.get(tier, 25)
+    rng = random.Random(seed or 1)
+    if unit in DELTA_UNITS:
+        inputs = itertools.chain(SEEDS_DELTA, _corpus(), _token_soup(4 if tier == 'quick' else 6, rng, 4000 if tier == 'quick' else 60000))
+        hit = _run_many('delta', inputs, deadline, _crashes)
+        if hit:
+            data, r = hit
+            return {'mode': 'delta', 'input_utf8_lossy': data.decode('utf-8', 'replace')[:2000], 'input_hex': data.hex()[:8000],
+                    'observed': r, 'expected': 'the second-generation front end neither panics nor crashes on any byte string',
+                    'how': 'replay_runner delta <file> (scratch crate with a path dependency on the repository working tree)'}
+        if unit in ('U-HDR', 'U-PARSE') and pid == 'C17':
+            from . import witness_header
+            return witness_header.search(deadline, rng)
+        return None
+    if unit == 'U-LABEL':
+        from . import witness_alpha
+        return witness_alpha.search_labels(deadline, rng)
+    if unit in ('U-SYN',):
+        from . import witness_alpha
+        return witness_alpha.search_syntax(deadline, rng)
     return None
 
 
 def replay(w):
-    return False
+    """re-run a stored witness; True if it still fails"""
+    try:
+        data = bytes.fromhex(w['input_hex']) if w.get('input_hex') else w.get('input_utf8_lossy', '').encode()
+        r = replayrun.run(w['mode'], data, timeout=30)
+        if w['mode'] == 'delta' and 'expect_result' not in w:
+            return _crashes(r)
+        exp = w.get('expect_result')
+        if exp is not None:
+            return r.get('status') != 'ok' or any(str(r['result'].get(k)) != str(v) for k, v in exp.items())
+        return _crashes(r)
+    except Exception:
+        return False
